@@ -12,7 +12,7 @@ import vcheck, conc_check
 
 PROP = "Properties/Properties_C01.v"
 HARNESS = "harness/C01/main.cpp"
-MON_KEYS = ["guarded_dispose", "double_dispose", "unretired_dispose", "touch_disposed", "not_exactly_once"]
+MON_KEYS = ["guarded_dispose", "double_dispose", "unretired_dispose", "touch_disposed", "not_exactly_once", "kept_unguarded"]
 KNOWN_KEY = "copy_down_disposed"       # known finding hp-guard-copy-downward (see Properties_C01.C01_copy_down_unsafe)
 KNOWN_SIG = "hp-guard-copy-downward"
 KNOWN_WHAT = ("a guard obtained by Guard::copy of a protected pointer into a LOWER hazard slot does not protect: a scan already in progress "
@@ -22,6 +22,7 @@ MON_WHAT = {
     "double_dispose": "HP disposed a retired object more than once (real code, dispose counter)",
     "unretired_dispose": "HP disposed an object that was never retired (real code, dispose counter)",
     "touch_disposed": "a guard obtained by protect() refers to an object that has been disposed (real code, poisoning disposer)",
+    "kept_unguarded": "a scan left a retired object in the array although no hazard slot held it at any moment of that scan (real code, slot history monitor; C03 third sentence)",
     "not_exactly_once": "after destruction of the HP singleton a retired object was not disposed exactly once (real code, dispose counter)",
 }
 
